@@ -758,6 +758,8 @@ impl World {
             "older-term-entry-committed-by-count"
         } else if f & F_DUP_INDEX != 0 {
             "two-entries-at-one-index"
+        } else if f & F_STALE_VOTE != 0 {
+            "vote-reply-of-another-term-counted"
         } else if f & F_DOUBLE_VOTE != 0 {
             "double-vote"
         } else {
